@@ -189,3 +189,11 @@ def toyCore : BlockHash where
 example : toyCore.hasher.final ([[97, 98, 99], [100], [101, 102, 103, 104, 105, 106]].foldl
     toyCore.hasher.update toyCore.hasher.init) = toyCore.oneShot [97, 98, 99, 100, 101, 102, 103, 104, 105, 106] :=
   C13_block_buffered_pieces toyCore _
+
+/-- … and the patch hash through any such core — fed line by line, a line and its newline in two
+    separate `update` calls as the code does — is the ONE-SHOT digest of the filtered text: every
+    line containing `$NetBSD` removed, each kept line newline-terminated -/
+theorem C13_block_buffered_patch (B : BlockHash) (c : Bytes) :
+    hashPatch (L.hasherR B) c =
+      hexLower (B.oneShot (((splitLines c).filter fun l => !hasNetBSD l).flatMap fun l => l ++ [10])) := by
+  rw [C13_patch_is_filtered_file (L.hasherR B) (L.hasherR_lawful B) c, L.hasherR_final_update]
